@@ -234,6 +234,16 @@ def correspondence(ctx, salt='corr'):
         for p in perms:
             lines.append(f'pauli_remap {N} {ilist(p)}')
             refs.append(list(ffb.remap_pauli_basis_elements(list(p), N)))
+    # larger registers (the theorems are for every n; integer width is not: 4**n exceeds one byte
+    # at n = 5 and two bytes at n = 9)
+    for N, k in ((5, 6), (6, 2), (9, 1)) if ctx.tier == 'quick' else ((6, 12), (7, 4), (9, 3)):
+        for _ in range(k):
+            s = sorted(rng.choice(N, int(rng.integers(1, N + 1)), replace=False).tolist())
+            lines.append(f'pauli_equiv {N} {ilist(s)}')
+            refs.append(list(ffb.equivalent_pauli_basis_elements(list(s), N)))
+            p = rng.permutation(N).tolist()
+            lines.append(f'pauli_remap {N} {ilist(p)}')
+            refs.append(list(ffb.remap_pauli_basis_elements(list(p), N)))
     outs = driver(lines)
     badp = [(ln, o[:40]) for ln, o, r in zip(lines, outs, refs)
             if not (o.startswith('ok ') and [int(t) for t in o[3:].split(',')] == [int(x) for x in r])]
@@ -305,6 +315,10 @@ def search(ctx, deep=False):
             k = int(rng.integers(1, N + 1))
             idx = sorted(rng.choice(N, k, replace=False).tolist())
             check_pauli_maps(ctx, {'N': N, 'idx': idx, 'perm': rng.permutation(N).tolist()})
+    # five qubits against the explicitly constructed 1024-element basis
+    for _ in range(2 if ctx.tier == 'quick' and not deep else 8):
+        idx = sorted(rng.choice(5, int(rng.integers(1, 6)), replace=False).tolist())
+        check_pauli_maps(ctx, {'N': 5, 'idx': idx, 'perm': rng.permutation(5).tolist()})
     if deep:
         # another (thorough tier: exhaustive) enumeration of the helpers through the correspondence
         # path, with fresh random position lists
